@@ -229,6 +229,11 @@ impl FrameQueue {
         return self.next_id().wrapping_sub(self.window.base_id) < self.window.size;
     }
 
+    // True if `count` more frames fit in the transfer window
+    pub fn can_push_count(&self, count: u32) -> bool {
+        return self.next_id().wrapping_sub(self.window.base_id) + count <= self.window.size;
+    }
+
     pub fn next_id(&self) -> u32 {
         self.frame_log.next_id()
     }
